@@ -33,6 +33,7 @@ class ClientRun:
         self.client_kw = client_kw
         self.handler_cls = handler_cls
         self.auto_reconnect_on_timeout = False
+        self.reconnect_in_on_close = False
         self.current = -1
 
     def ev(self, e):
@@ -61,6 +62,9 @@ class ClientRun:
 
             async def on_close(self, rsocket, exception=None):
                 R.closes += 1
+                if R.reconnect_in_on_close:
+                    # the application reacts to the loss by reconnecting right here (as tests/rsocket/test_connection_lost.py does)
+                    await rsocket.reconnect()
 
         for i, t in enumerate(self.transports):
             def on_sent(entry, i=i):
